@@ -220,7 +220,17 @@ def long_string(rng, tails=("",)):
     return t + tail
 
 
+SWEEP_P2 = [127, 128, 129, 130, 255, 256, 257, 258, 259, 387, 388, 511, 512, 513, 1000, 1023, 1024, 1025]
+
+
 def sweep_cases(rng, fraction=1.0):
+    """the seeded sample of sizes (below) plus, always, the sizes next to powers of two and multiples of 128 / 129 up to 1025 for the flat dimensions
+    (tuple length, groups per return, splitter count) — those from a generator of their own, so that the sample's random stream does not depend on them"""
+    import random as _r
+    return _sweep(rng, fraction) + _sweep(_r.Random(20260930), 1.0, only=SWEEP_P2)
+
+
+def _sweep(rng, fraction=1.0, only=None):
     """DIMENSION SWEEPS: one program for (nearly) every size along each dimension a renderer, a parser or the choice function could treat
     specially from some size on — tuple length 1..130, else-if chain 1..100, groups per return 1..130, splitter count 1..40, literal length
     0..320, integer literal digits 1..70, weight magnitude 1e-320..1e300, identifier length 1..300 — each asked on inputs at its edges.
@@ -228,12 +238,13 @@ def sweep_cases(rng, fraction=1.0):
     L = lambda t: lit_str(t, quote='"')
     one = lambda t: ("ret", [(L(t), "1")])
     keep = lambda: rng.random() < fraction
+    dim = lambda default, flat=False: (list(only) if flat else []) if only is not None else list(default)
     cases = []
 
     def add(prog, envs):
         cases.append({"prog": prog, "text": render(prog, rng, "plain"), "envs": envs})
 
-    for k in range(1, 131):          # tuple length
+    for k in dim(range(1, 131), True):          # tuple length
         if not keep():
             continue
         strs = k % 2 == 0
@@ -243,7 +254,7 @@ def sweep_cases(rng, fraction=1.0):
         probes = {0, k - 1, k // 2, min(k - 1, 31), min(k - 1, 32), min(k - 1, 63), min(k - 1, 64)}
         envs = [{"u": 1, "x": val(i)} for i in sorted(probes)] + [{"u": 1, "x": val(k)}, {"u": 1, "x": (val(0) + val(k - 1)) if k > 1 else None}]
         add(Program("e", None, ["u"], cond, {"u": "any", "x": "any"}), envs)
-    for k in range(1, 101):          # else-if chain
+    for k in dim(range(1, 101)):          # else-if chain
         if not keep():
             continue
         sub = ("else", one("z"))
@@ -251,7 +262,7 @@ def sweep_cases(rng, fraction=1.0):
             sub = ("elif", ("cmp", ("id", "x"), "==", ("lit", lit_int(i))), one("b%d" % i), sub)
         add(Program("e", None, ["u"], ("if", ("cmp", ("id", "x"), "==", ("lit", lit_int(0))), one("b0"), sub), {"u": "any", "x": "int"}),
             [{"u": 1, "x": v} for v in (0, 1, k // 2, k, k + 1)])
-    for k in list(range(1, 60)) + list(range(60, 199, 3)) + [197, 198]:          # boolean operator chain, with a group of the OTHER operator at either end
+    for k in dim(list(range(1, 60)) + list(range(60, 199, 3)) + [197, 198]):          # boolean operator chain, with a group of the OTHER operator at either end
         if not keep():
             continue
         inner_op, outer_op = rng.choice([("or", "and"), ("and", "or")])
@@ -263,36 +274,36 @@ def sweep_cases(rng, fraction=1.0):
         cond = ("if", pred, one("T"), ("else", one("F")))
         add(Program("e", None, ["u"], cond, {"u": "any", "x": "int", "y": "int"}),
             [{"u": 1, "x": xv, "y": yv} for xv in (0, k - 1, k // 2, k, -1) for yv in (1, 2)])
-    for k in range(1, 131):          # groups per return
+    for k in dim(range(1, 131), True):          # groups per return
         if not keep():
             continue
         groups = [(L("g%d" % i), str(1 + (i * 7) % 5)) for i in range(k)]
         add(Program("e", L("s"), ["u"], ("ret", groups), {"u": "any"}), [{"u": "unit%d" % j} for j in range(6)])
-    for k in list(range(1, 41)) + [64, 100]:          # splitter count
+    for k in dim(list(range(1, 41)) + [64, 100], True):          # splitter count
         if not keep():
             continue
-        names = ["s%02d" % i for i in range(k)]
+        names = ["s%04d" % i for i in range(k)]
         add(Program("e", L("s"), names, ("ret", [(L("a"), "1"), (L("b"), "2"), (L("c"), "1")]), {x: "any" for x in names}),
             [{x: "v%d" % ((j + i) % 7) for i, x in enumerate(names)} for j in range(3)])
-    for n in list(range(0, 90)) + list(range(90, 321, 10)) + [255, 256, 257]:          # literal length
+    for n in dim(list(range(0, 90)) + list(range(90, 321, 10)) + [255, 256, 257]):          # literal length
         if not keep():
             continue
         lit = L("".join("abcdefghij"[i % 10] for i in range(n)))
         cond = ("if", ("cmp", ("id", "x"), "==", ("lit", lit)), ("ret", [(lit, "1")]), ("else", one("F")))
         add(Program("e", lit if n % 3 == 0 else None, ["u"], cond, {"u": "any", "x": "str"}), [{"u": 1, "x": lit.value}, {"u": 1, "x": lit.value + "x"}, {"u": 1, "x": lit.value[:-1]}])
-    for d in list(range(1, 71)) + [100, 308, 309, 1000, 4299]:          # integer literal digits
+    for d in dim(list(range(1, 71)) + [100, 308, 309, 1000, 4299]):          # integer literal digits
         if not keep():
             continue
         n = int("7" * d)
         cond = ("if", ("cmp", ("id", "x"), ">=", ("lit", lit_int(n))), ("ret", [(lit_int(n), "1")]), ("else", one("F")))
         add(Program("e", None, ["u"], cond, {"u": "any", "x": "int"}), [{"u": 1, "x": n}, {"u": 1, "x": n - 1}, {"u": 1, "x": n + 1}, {"u": 1, "x": float(n) if d < 300 else n}])
-    for e in range(-320, 301, 5):          # weight magnitude (one scale per vector)
+    for e in dim(range(-320, 301, 5)):          # weight magnitude (one scale per vector)
         if not keep():
             continue
         def w(m):
             return ("0." + "0" * (-e - 1) + str(m)) if e < 0 else str(m) + "0" * e + (".0" if e % 2 else "")
         add(Program("e", None, ["u"], ("ret", [(L("a"), w(2)), (L("b"), w(6)), (L("c"), w(8))]), {"u": "any"}), [{"u": "unit%d" % j} for j in range(8)])
-    for n in list(range(1, 80, 3)) + [100, 200, 255, 256, 300]:          # identifier length
+    for n in dim(list(range(1, 80, 3)) + [100, 200, 255, 256, 300]):          # identifier length
         if not keep():
             continue
         name = ("f" + "x" * n)[:n] if n > 1 else "f"
@@ -409,6 +420,45 @@ def ws_class_texts():
             out.append((sep, s, join_tokens(toks, lambda i, a, b, must: sep)))
             out.append((sep, s, join_tokens(toks, lambda i, a, b, must: sep if must else "")))
     return out
+
+
+def many_splitter_cases(rng, sizes=None):
+    """experiments with 127 .. 1025 splitter fields, asked on records that differ in ONE field (each position next to a multiple of 64 / 128 / 129, the first
+    and the last): every declared field reaches the hash key"""
+    L = lambda t: lit_str(t, quote='"')
+    cases = []
+    for k in (sizes or [127, 128, 129, 130, 255, 256, 257, 258, 259, 387, 388, 512, 513, 1025]):
+        names = ["s%04d" % i for i in range(k)]
+        rng.shuffle(names)
+        base = {x: "v" for x in names}
+        srt = sorted(names)
+        pos = sorted({p for p in (0, 1, 62, 63, 64, 65, 126, 127, 128, 129, 130, 255, 256, 257, 258, 259, 383, 384, 385, 386, 387, 511, 512, 513, 1023, 1024, k - 2, k - 1) if 0 <= p < k})
+        envs = [base] + [dict(base, **{srt[p]: "w"}) for p in pos]
+        prog = Program("e", L("s"), names, ("ret", [(L("g%d" % i), "1") for i in range(16)]), {x: "any" for x in names})
+        cases.append({"prog": prog, "text": render(prog, rng, "plain"), "envs": envs})
+    return cases
+
+
+PY_WHITESPACE = [" ", "\t", "\n", "\r", "\x0b", "\x0c", "\x1c", "\x1d", "\x1e", "\x1f", "\x85", "\xa0", "\u1680"] + [chr(c) for c in range(0x2000, 0x200b)] + ["\u2028", "\u2029", "\u202f", "\u205f", "\u3000"]
+
+
+def two_word_token_cases():
+    """`not in` and `else if` are single tokens whose two words may be separated by any white space the lexer's character class accepts: one program per
+    white-space character (alone, doubled, beside a blank), with the reference meaning of the SAME program written with a blank"""
+    L = lambda t: lit_str(t, quote='"')
+    one = lambda t: ("ret", [(L(t), "1")])
+    cond = ("if", ("cmp", ("id", "x"), "not in", ("tuple", [("lit", lit_int(1)), ("lit", lit_int(2))])), one("N"),
+            ("elif", ("cmp", ("id", "y"), "in", ("tuple", [("lit", lit_int(5))])), one("E"), ("else", one("F"))))
+    prog = Program("e", None, ["u"], cond, {"u": "any", "x": "int", "y": "int"})
+    base = join_tokens(program_tokens(prog))
+    assert base.count(" not in ") == 1 and base.count(" else if ") == 1
+    envs = [{"u": 1, "x": xv, "y": yv} for xv in (1, 3) for yv in (5, 6)]
+    cases = []
+    for c in PY_WHITESPACE:
+        for gap in (c, c + c, " " + c, c + " "):
+            cases.append({"prog": prog, "text": base.replace(" not in ", " not" + gap + "in ").replace(" else if ", " else" + gap + "if "), "envs": envs})
+    cases.append({"prog": prog, "text": base.replace(" else if ", " elseif "), "envs": envs})
+    return cases
 
 
 def membership_cases(rng, n):
